@@ -321,7 +321,11 @@ func (m *Mon) Calls() int64 { m.mu.Lock(); defer m.mu.Unlock(); return m.seq }
 func (m *Mon) Events() []*Event { m.mu.Lock(); defer m.mu.Unlock(); return m.events }
 
 // Fired lists the faults that were actually injected ("seq:op:kind").
-func (m *Mon) Fired() []string { m.mu.Lock(); defer m.mu.Unlock(); return append([]string(nil), m.fired...) }
+func (m *Mon) Fired() []string {
+	m.mu.Lock()
+	defer m.mu.Unlock()
+	return append([]string(nil), m.fired...)
+}
 
 // Mutating reports whether an event can change the filesystem.
 func Mutating(e *Event) bool {
